@@ -1,7 +1,8 @@
 """C08 -- Coxeter representations (T1, DU, U1)."""
 from ..rules import dtype_rules as D
 from ..rules import rep_rules as R
-from ..rules.common import u1
+from ..rules import cache_rules as CA
+from ..rules.common import u1, n1
 
 COX = R.COX
 ENTRIES = [(COX, "CoxeterGroup." + m) for m in (
@@ -16,6 +17,12 @@ def run(ctx):
               "the cosine matrix becomes an object array and every Coxeter "
               "representation constructor raises TypeError")
     R.rule_dual(ctx)
+    n1(ctx, ["geometry_tools/coxeter.py"], lookup_rels=("geometry_tools/coxeter.py",))
+    CA.rule_c2(ctx, "CoxeterGroup")
+    CA.rule_query_purity(ctx, "CoxeterGroup", [
+        "bilinear_form", "cartan_representation", "geometric_representation",
+        "canonical_representation", "cartan_matrix", "tits_vinberg_rep",
+        "hyperbolic_rep", "automaton", "standard_subgroup"])
     u1(ctx, ENTRIES, min_functions=15)
     ctx.r.assume("involutions, braid relations, form preservation and "
                  "triangle angles are numerical and not decided")
